@@ -185,7 +185,9 @@ class Request(request.Request):
         else:
             self.path = path
 
-        query_string = scope['query_string'].decode()
+        # NOTE: Undecodable bytes are replaced, like an undecodable
+        #   percent-encoded sequence would be.
+        query_string = scope['query_string'].decode('utf-8', 'replace')
         self.query_string = query_string
         if query_string:
             self._params = parse_query_string(
